@@ -10,22 +10,34 @@ from harness.report import Report
 from harness.terms import jkey
 
 DATES = [["str", "%04d-02-28" % y] for y in (2019, 2020, 2021, 2022, 2023, 2024)]
-TABLE = [(["date", "int", "str"], DATES + [["int", 5], ["str", "t"]])]
+TABLE = [(["date", "int", "str"], DATES + [["int", 5], ["str", "t"]]), (["bytes"], [["str", "AQL/\n"]])]
 
 
 def configs(prop, tier):
     L = 4 if tier == "quick" else 5
     if prop == "C13":
-        return [dict(MaxLen=L)]
+        return [dict(MaxLen=L), dict(MaxLen=L, Mixin='"msgpack"'), dict(MaxLen=L - 1, Mixin='"orjson"', LazyC=True)]
     if prop == "C14":
-        return [dict(MaxLen=L, LazyC=True), dict(MaxLen=L, LazyC=True, LazyInner=True), dict(MaxLen=L, LazyInner=True)]
+        return [dict(MaxLen=L, LazyC=True), dict(MaxLen=L, LazyC=True, LazyInner=True), dict(MaxLen=L, LazyInner=True),
+                dict(MaxLen=L - 1, LazyC=True, Mixin='"orjson"', KwFlags=True), dict(MaxLen=L - 1, LazyC=True, Mixin='"msgpack"', KwFlags=True),
+                dict(MaxLen=L - 1, LazyC=True, LazyInner=True, KwFlags=True)]
     if prop == "C15":
         return [dict(MaxLen=L, Codecs=True), dict(MaxLen=min(L, 4), Codecs=True, LazyC=True)]
+    if prop == "C04":
+        return [dict(MaxLen=L, Mixin='"msgpack"'), dict(MaxLen=L - 1, Mixin='"orjson"', KwFlags=True)]
+    if prop == "C08":
+        return [dict(MaxLen=L - 1, LazyC=True, KwFlags=True), dict(MaxLen=L - 1, KwFlags=True)]
     raise KeyError(prop)
 
 
 def run(prop, tier, seed):
     rep = Report(prop, tier, seed)
+    run_into(rep, prop, tier, seed)
+    return finish(rep)
+
+
+def run_into(rep, prop, tier, seed):
+    """the sys state-machine part; also used by C04 and C08 (format / keyword histories)"""
     wd = tlc.scratch()
     for kw in configs(prop, tier):
         cfg = core.cfg_text("MC_Sys.cfg", **kw)
@@ -42,18 +54,23 @@ def run(prop, tier, seed):
             if sum(1 for e in b if e[0] in ("Call", "CodecCall")) >= 2:
                 rep.nontrivial(hashlib.sha1(jkey([kw, b]).encode()).hexdigest())
         for m in agg["mism"]:
+            ev_ = m["event"]
+            akey = (ev_[1], ev_[2], ev_[3], ev_[4], ev_[5]) if ev_[0] == "Call" else None
             rep.violation(m["clause"], {**m, "config": kw, "replay_module": "harness.checks.sys_props", "prop": prop,
+                                        "arg": t.args.get(akey) if akey else None,
+                                        "args": {jkey(list(e[1:6])): t.args.get((e[1], e[2], e[3], e[4], e[5])) for e in m["history"] if e[0] == "Call" and e[2] == "from"},
                                         "tables": {"classes": t.classes, "values": t.values, "inputs": t.inputs, "dialects": t.dialects,
                                                    "twins": {jkey(list(k)): v for k, v in t.twins.items()} if m["clause"] == "twin" else {}}})
         if t.behaviours:
             rep.sample({"config": kw, "behaviour": t.behaviours[len(t.behaviours) // 2]})
     # sensitivity: the deviant cache lookup (found through the parent class) must be refuted by TLC
     if prop == "C13":
-        try:
-            rd = core.run_mc_with_table("MC_Sys", wd, TABLE, cfg=core.cfg_text("MC_Sys.cfg", MaxLen=4, CacheMode='"inherited"'), timeout=900)
-            rep.selftests["inherited_cache_refuted_by_TLC"] = bool({"Faithful", "CacheOwn"} & set(rd.violated))
-        except tlc.MachineryError as e:
-            rep.selftests["inherited_cache_refuted_by_TLC"] = "Faithful" in str(e) or "CacheOwn" in str(e)
+        for mode, extra in (("inherited", {}), ("noformat", {"Mixin": '"msgpack"'})):
+            try:
+                rd = core.run_mc_with_table("MC_Sys", wd, TABLE, cfg=core.cfg_text("MC_Sys.cfg", MaxLen=4, CacheMode=f'"{mode}"', **extra), timeout=900)
+                rep.selftests[f"{mode}_cache_refuted_by_TLC"] = bool({"Faithful", "CacheOwn"} & set(rd.violated))
+            except tlc.MachineryError as e:
+                rep.selftests[f"{mode}_cache_refuted_by_TLC"] = "Faithful" in str(e) or "CacheOwn" in str(e)
         from harness.checks import c13_formats
         c13_formats.run(rep, tier)
     if prop == "C14":
@@ -61,8 +78,11 @@ def run(prop, tier, seed):
         c14_extra.run(rep, tier, seed)
     rep.assumptions += ["family: P (plain nested), Inner (dialect support), C (nested, list of nested, plain nested, aliased Optional), S < C; dialects D1 (strategy), D2 (omit_none+by_alias), D3 (strategy+omit_none)",
                         "the twin of a family under D gives every class reached through dialect-enabled classes the default dialect Layer(D, own) (DESIGN.md 6 C13)"]
+
+
+def finish(rep):
     return rep.finish({"exhaustive": True,
-                       "rule": "all histories of length MaxLen over Define(C|S) / Call(class, to|from, none|D1|D2|D3) [/ CreateCodec / CodecCall]; each behaviour on fresh classes; "
+                       "rule": "all histories of length MaxLen over Define(C|S) / Call(class, to|from, format, none|D1|D2|D3, keyword) [/ CreateCodec / CodecCall]; each behaviour on fresh classes; "
                                "non-trivial = at least two calls"})
 
 
@@ -71,18 +91,21 @@ def replay(rec, path):
     tb = rec["tables"]
     t.classes, t.values, t.inputs, t.dialects = tb["classes"], tb["values"], tb["inputs"], tb["dialects"]
     ev = rec["event"]
-    key = (ev[1], ev[2], ev[3])
+    key = (ev[1], ev[2], ev[3], ev[4] if len(ev) > 4 else "dict", ev[5] if len(ev) > 5 else "none")
+    t.args = {key: rec.get("arg")}
     if rec["clause"] == "twin":
         t.twins = {key: tb["twins"][jkey(list(key))]}
         t.calls = {key: rec["expected"]}
         behave._TABLES = t
         m = behave._run_twin(key)
     else:
-        (t.calls if ev[0] == "Call" else t.codeccalls)[key] = rec["expected"]
-        # earlier events of the history need expectations too: they are re-executed but only the last one is judged
+        if ev[0] == "Call":
+            t.calls[key] = rec["expected"]
+        else:
+            t.codeccalls[(ev[1], ev[2], ev[3])] = rec["expected"]
         for e in rec["history"][:-1]:
-            if e[0] in ("Call", "CodecCall"):
-                (t.calls if e[0] == "Call" else t.codeccalls).setdefault((e[1], e[2], e[3]), None)
+            if e[0] == "Call" and e[2] == "from":
+                t.args[(e[1], e[2], e[3], e[4], e[5])] = rec.get("args", {}).get(jkey(list(e[1:6])))
         behave._TABLES = t
         m = _replay_history(t, rec["history"])
     if m:
@@ -104,10 +127,13 @@ def _replay_history(t, hist):
             elif ev[0] == "CreateCodec":
                 w.create_codec(ev[1], ev[2], ev[3])
             else:
-                act = w.call(ev[1], ev[2], ev[3]) if ev[0] == "Call" else w.codec_call(ev[1], ev[2], ev[3])
+                try:
+                    act = w.call(ev[1], ev[2], ev[3], ev[4], ev[5]) if ev[0] == "Call" else w.codec_call(ev[1], ev[2], ev[3])
+                except KeyError:
+                    act = None
                 if last:
-                    exp = (t.calls if ev[0] == "Call" else t.codeccalls)[(ev[1], ev[2], ev[3])]
-                    ok = wire_match(canon(exp), act) if ev[2] == "to" else terms_equal(exp, act)
+                    exp = t.calls[(ev[1], ev[2], ev[3], ev[4], ev[5])] if ev[0] == "Call" else t.codeccalls[(ev[1], ev[2], ev[3])]
+                    ok = behave.sys_match(exp, act, ev[2], ev[5] if ev[0] == "Call" else "none")
                     return None if ok else {"actual": act}
     finally:
         w.close()
